@@ -4,6 +4,7 @@ NEXT Next
 CONSTANTS
   Algo = "asis"
   SeedCopyreg = "live"
+  InitGuard = FALSE
   Scns = {}
 INVARIANT WitDump
 CHECK_DEADLOCK FALSE
